@@ -9,7 +9,9 @@ Definition qimg := nimg (K:=QcF).
 (* image operations: the grid operations of C03 plus data-only parameters *)
 Inductive iop :=
 | IGrid (o : gop (K:=QcF)) (cv : Qc) (kern : list Qc)     (* cv: pad value (crop family); kern: Gaussian taps (downsample) *)
-| IConv (w : list Qc).
+| IConv (w : list Qc)
+| IConv2 (w : list (list Qc))
+| IConv3 (w : list (list (list Qc))).
 
 Definition flag_of (a : option bool) (g : dgrid (K:=QcF)) : bool := match a with Some b => b | None => acf g end.
 Definition rev_dim (D : nat) (k : nat) : nat := (D - 1 - k)%nat.
@@ -18,6 +20,8 @@ Definition rev_dim (D : nat) (k : nat) : nat := (D - 1 - k)%nat.
 Definition apply_data (D : nat) (o : iop) (g g' : dgrid (K:=QcF)) (im : qimg) : qimg :=
   match o with
   | IConv w => d_conv (K:=QcF) D w im
+  | IConv2 w => d_conv2 (K:=QcF) w im
+  | IConv3 w => d_conv3 (K:=QcF) w im
   | IGrid op cv kern =>
     match op with
     | OResize size a => d_interp (K:=QcF) floorQ D (flag_of a g) size im
@@ -38,6 +42,8 @@ Definition apply_data (D : nat) (o : iop) (g g' : dgrid (K:=QcF)) (im : qimg) : 
 Definition apply_grid (D : nat) (o : iop) (g : dgrid (K:=QcF)) : dgrid (K:=QcF) :=
   match o with
   | IConv w => g
+  | IConv2 w => g
+  | IConv3 w => g
   | IGrid op _ _ => apply_op (K:=QcF) ceilQc floorQc leQc D op g
   end.
 (* all intermediate (grid, frozen data table) states of a chain *)
